@@ -698,15 +698,17 @@ func (idx *indexer) indexSince(txID uint64) error {
 						txmd = prevTxHdr.Metadata.Bytes()
 					}
 
-					var kvmd *KVMetadata
+					// metadata of an entry read back from the tx log is read-only, a copy is marked as deleted
+					kvmd := NewKVMetadata()
 
 					if prevEntry.Metadata() != nil {
-						kvmd = prevEntry.Metadata()
-					} else {
-						kvmd = NewKVMetadata()
+						err = kvmd.unsafeReadFrom(prevEntry.Metadata().Bytes())
+						if err != nil {
+							return err
+						}
 					}
 
-					kvmd.AsDeleted(true)
+					err = kvmd.AsDeleted(true)
 					if err != nil {
 						return err
 					}
